@@ -43,9 +43,23 @@ func isInSchemaRegistry(typ reflect.Type) (Schema, bool) {
 }
 
 func schemaForType(typ reflect.Type) (Schema, error) {
+	return schemaForTypeIn(typ, nil)
+}
+
+// schemaForTypeIn builds the schema for typ. enclosing lists the types whose
+// schemas are currently being built, so that a self-referential type is
+// reported as an error rather than recursing until the stack overflows.
+func schemaForTypeIn(typ reflect.Type, enclosing []reflect.Type) (Schema, error) {
 	if s, ok := isInSchemaRegistry(typ); ok {
 		return s, nil
 	}
+
+	for _, t := range enclosing {
+		if t == typ {
+			return Schema{}, fmt.Errorf("type %s is self-referential, which is not supported", typ)
+		}
+	}
+	enclosing = append(enclosing, typ)
 
 	// BigQuery makes every basic type nullable. We'll send null for the zero
 	// value if there's an "omitempty" tag.
@@ -59,14 +73,14 @@ func schemaForType(typ reflect.Type) (Schema, error) {
 	case reflect.String:
 		return Schema{Type: "string"}, nil
 	case reflect.Struct:
-		return schemaForStruct(typ)
+		return schemaForStruct(typ, enclosing)
 	case reflect.Array, reflect.Slice:
-		return schemaForArray(typ)
+		return schemaForArray(typ, enclosing)
 	case reflect.Map:
-		return schemaForMap(typ)
+		return schemaForMap(typ, enclosing)
 	case reflect.Pointer:
 		// If this is a pointer to a basic type then we don't need to wrap in a union as all the basic types are nullable.
-		underlying, err := schemaForType(typ.Elem())
+		underlying, err := schemaForTypeIn(typ.Elem(), enclosing)
 		if err != nil {
 			return Schema{}, fmt.Errorf("getting underlying schema for pointer: %w", err)
 		}
@@ -89,7 +103,7 @@ func nullableSchema(s Schema) Schema {
 	}
 }
 
-func schemaForStruct(typ reflect.Type) (Schema, error) {
+func schemaForStruct(typ reflect.Type, enclosing []reflect.Type) (Schema, error) {
 	fields := make([]SchemaRecordField, 0, typ.NumField())
 	for i := 0; i < typ.NumField(); i++ {
 		field := typ.Field(i)
@@ -98,7 +112,7 @@ func schemaForStruct(typ reflect.Type) (Schema, error) {
 			continue
 		}
 
-		s, err := schemaForType(field.Type)
+		s, err := schemaForTypeIn(field.Type, enclosing)
 		if err != nil {
 			return Schema{}, fmt.Errorf("getting schema for field %s: %w", name, err)
 		}
@@ -127,7 +141,7 @@ func schemaForStruct(typ reflect.Type) (Schema, error) {
 
 var namespaceReplacer = strings.NewReplacer("/", ".", "-", "_")
 
-func schemaForArray(typ reflect.Type) (Schema, error) {
+func schemaForArray(typ reflect.Type, enclosing []reflect.Type) (Schema, error) {
 	elem := typ.Elem()
 	if elem.Kind() == reflect.Uint8 {
 		return Schema{
@@ -135,7 +149,7 @@ func schemaForArray(typ reflect.Type) (Schema, error) {
 		}, nil
 	}
 
-	s, err := schemaForType(elem)
+	s, err := schemaForTypeIn(elem, enclosing)
 	if err != nil {
 		return Schema{}, fmt.Errorf("building array schema: %w", err)
 	}
@@ -148,8 +162,8 @@ func schemaForArray(typ reflect.Type) (Schema, error) {
 	}, nil
 }
 
-func schemaForMap(typ reflect.Type) (Schema, error) {
-	s, err := schemaForType(typ.Elem())
+func schemaForMap(typ reflect.Type, enclosing []reflect.Type) (Schema, error) {
+	s, err := schemaForTypeIn(typ.Elem(), enclosing)
 	if err != nil {
 		return Schema{}, err
 	}
